@@ -36,12 +36,6 @@ theorem items_match_source :
 
 /-! ### round trips -/
 
-theorem date_of_inv (d : Date) (hd : DateInv d) :
-    VD d.year d.ordinal.toNat ∧ d = dateOfYo d.year d.ordinal.toNat := by
-  obtain ⟨hext, hy1, hy2⟩ := (dateInv_iff d).mp hd
-  obtain ⟨e1, e2⟩ := ext_eq d hext
-  exact ⟨⟨hy1, hy2, e2.2.2.1, e2.2.2.2⟩, e1⟩
-
 /-- **NaiveDate** (`Debug` = `Display`): for every date of the supported range the text is
 `[sign]YYYY-MM-DD` as specified and `FromStr` reads it back as the same date -/
 theorem roundtrip_NaiveDate (d : Date) (hd : DateInv d) :
@@ -68,17 +62,6 @@ theorem roundtrip_NaiveTime (t : Time) (ht : TStrict t) :
 
 example : TStrict ⟨86399, 1500000000⟩ ∧ timeText ⟨86399, 1500000000⟩ = asciiBytes "23:59:60.500" ∧
     timeText ⟨3661, 1000⟩ = asciiBytes "01:01:01.000001" := by decide +kernel
-
-theorem naive_of_inv (dt : NaiveDT) (h : NDTInv dt) :
-    VD dt.date.year dt.date.ordinal.toNat ∧ dt = ⟨dateOfYo dt.date.year dt.date.ordinal.toNat, dt.time⟩ ∧
-    naiveText 84 dt = dateText dt.date.year (monthOfYo dt.date.year dt.date.ordinal.toNat)
-        (dayOfYo dt.date.year dt.date.ordinal.toNat) ++ (84 :: timeText dt.time) ∧
-    naiveText 32 dt = dateText dt.date.year (monthOfYo dt.date.year dt.date.ordinal.toNat)
-        (dayOfYo dt.date.year dt.date.ordinal.toNat) ++ (32 :: timeText dt.time) := by
-  obtain ⟨hvd, he⟩ := date_of_inv dt.date h.1
-  refine ⟨hvd, ?_, rfl, rfl⟩
-  cases dt with
-  | mk d t => simp only [NaiveDT.mk.injEq, and_true]; exact he
 
 /-- **NaiveDateTime, `Debug`** (date `T` time) reads back as the same value -/
 theorem roundtrip_NaiveDateTime_debug (dt : NaiveDT) (h : NDTInv dt) (hs : TStrict dt.time) :
